@@ -6,7 +6,7 @@ Round 4: 110 functions translated (every pdf/cdf/surv/log*/inv*/generic_*/Sample
 Round 3: 106 functions translated — the mixtures (esl_hxp_*, esl_mixgev_*, esl_vec_DMax/DMin/DLogSum: counted loops as folds,
 parameter structures), the four bracketing + bisection inverses (do-while loops recursing on fuel) and the generic-API wrappers.
 L0 support (NOT a theorem): props/c10_ref.py, mpmath at 50 digits, run as property monitors."""
-import struct, os, sys, math
+import struct, os, sys, math, re
 from vlib.engine import Prop, Failure
 sys.path.insert(0, os.path.join(os.path.dirname(os.path.dirname(os.path.abspath(__file__))), "translate"))
 import c2lean
@@ -28,8 +28,8 @@ P_GRID = [1e-300, 1e-100, 1e-30, 1e-20, 1e-17, 1e-16, 1e-15, 1e-12, 1e-10, 4.9e-
           5.1e-9, 1e-8, 1e-6, 1e-4, 1e-3, 0.01, 0.1, 0.25, 0.5, 0.75, 0.9, 0.99, 0.999, 0.999999, 1 - 1e-9, 1 - 1e-12,
           1 - 2.0 ** -52, 1 - 2.0 ** -53]
 LAM_GRID = [1e-3, 3e-3, 0.01, 0.03, 0.1, 0.3, 0.7, 1.0, 2.0, 5.0, 10.0, 30.0, 100.0, 300.0, 1e3]
-TAU_GRID = [0.05, 0.1, 0.2, 0.3, 0.5, 0.7, 0.9, 1.0, 1.1, 1.5, 2.0, 3.0, 5.0, 10.0, 20.0]
-ALPHA_GRID = [1e-15, 1e-13, 9.9e-13, 1e-12, 1.1e-12, 1e-11, 1e-9, 1e-7, 1e-5, 1e-3, 0.01, 0.1, 0.3, 0.5, 1.0, 2.0]
+TAU_GRID = [0.05, 0.1, 0.2, 0.3, 0.5, 0.7, 0.9, nextafter(1.0, -1), 1.0, nextafter(1.0, 1), 1.1, 1.5, 2.0, 3.0, 5.0, 10.0, 20.0]
+ALPHA_GRID = [1e-15, 1e-13, 9.9e-13, nextafter(1e-12, -1), 1e-12, nextafter(1e-12, 1), 1.1e-12, 1e-11, 1e-9, 1e-7, 1e-5, 1e-3, 0.01, 0.1, 0.3, 0.5, 1.0, 2.0]
 MU_GRID = [0.0, 0.0, 0.0, 1.0, -1.0, 1e-3, -1e-3, 10.0, -20.0, 100.0, -1e3, 1e3]
 
 
@@ -119,6 +119,8 @@ class C10(Prop):
                    "esl_exp_invcdf / esl_wei_invcdf / esl_gumbel_invsurv form 1-p in binary64: p is resolved to 2^-53 absolutely (monitors allow that)"]
     rule = ("case = one parameter tuple of one family: all x-functions on a grid of arguments (support edge, every branch threshold +-2 ulp, "
             "log-spaced tails, random draws), inverse functions on a p-grid (incl. eslSMALLX1 +-1 ulp), round trips, derivative triples, samples; "
+            "every `f` answer of the model carries the number of the `return` statement reached (twin function generated with the translation): the "
+            "evidence lists, per function and branch, how many closed-form comparisons landed there, and which branch switches were hit between adjacent doubles; "
             "non-trivial = every op answered and at least one finite value other than 0/1; distinct by output trace")
     diverge_is_violation = True     # every op is a deterministic function; the model IS the translated source (see compare)
     quick_budget_s = 90
@@ -159,6 +161,31 @@ class C10(Prop):
            but a function that IS in the translated set must be answered by the model."""
         must = set(getattr(self, "tinfo", {}).get("functions", []))
         n = max(len(impl_out), len(model_out))
+        cov = self.__dict__.setdefault("leafcov", {})
+        axis = {}            # (fn, parameters) -> [(first argument, branch)]
+        for i in range(min(n, len(model_out), len(case["ops"]))):
+            m = re.search(r" b=(\d+)$", model_out[i])
+            if m:
+                model_out = list(model_out) if not isinstance(model_out, list) else model_out
+                model_out[i] = model_out[i][:m.start()]
+                w = case["ops"][i].split()
+                kvs = dict(x.split("=", 1) for x in w[1:] if "=" in x)
+                # accounted only where the implementation answered and the value was judged by the closed-form monitor
+                if i < len(impl_out) and impl_out[i].startswith("ok ") and R.split_fn(kvs.get("fn", "").replace("_generic_", "_"))[0]:
+                    cov.setdefault(kvs["fn"], {})[int(m.group(1))] = cov.setdefault(kvs["fn"], {}).get(int(m.group(1)), 0) + 1
+                    first, _, rest = kvs.get("a", "").partition(",")
+                    axis.setdefault((kvs["fn"], rest), []).append((unhex(first), int(m.group(1))))
+        tr = self.__dict__.setdefault("leaftrans", {})
+        for (fn_, _), pts_ in axis.items():
+            pts_ = sorted(set(pts_))
+            for (x1, l1), (x2, l2) in zip(pts_, pts_[1:]):
+                if l1 != l2 and x1 == x1 and x2 == x2:
+                    e = tr.setdefault(fn_, {}).setdefault("%d|%d" % (l1, l2), [0, 0, 0])
+                    e[0] += 1
+                    if nextafter(x1, 4) >= x2:
+                        e[2] += 1            # a genuine switch: the two points are at most 4 ulp apart
+                    if nextafter(x1, 1) == x2:
+                        e[1] += 1
         for i in range(n):
             a = impl_out[i] if i < len(impl_out) else "<missing>"
             b = model_out[i] if i < len(model_out) else "<missing>"
@@ -237,7 +264,8 @@ class C10(Prop):
         mu, lam = par[0], par[1]
         scale = lam if fam == "normal" else 1.0 / lam
         if fam == "lognormal":
-            xs = [0.0, 1e-300, 1e-10, 1e-3, 0.1, 0.5, 1.0, 2.0, 10.0, 121.5, 1e3, 1e10, 1e300, math.exp(par[0])]
+            # (no denormal arguments, as for the other families: esl_lognormal_pdf(5e-324, mu, 0.5) is 0/0 = NaN because x*sigma underflows)
+            xs = [0.0, 2.2250738585072014e-308, 1e-300, 1e-10, 1e-3, 0.1, 0.5, 1.0, 2.0, 10.0, 121.5, 1e3, 1e10, 1e300, math.exp(par[0])]
             xs += [self.logu(rng, 1e-6, 1e6) for _ in range(n_rand)]
             return sorted(set(xs))
         ys = set()
@@ -465,6 +493,10 @@ class C10(Prop):
         for fam in self.families_T:
             for extra in ([[]] if fam in ("exp", "gumbel") else [[v] for v in ((1e-13, -1e-13, 5e-12, 0.5, -0.5) if fam == "gev" else (0.7, 1.0, 2.0))]):
                 out.append(self.make_case(fam, [0.0, 1.0] + extra, rng, "canon-%s-%s" % (fam, extra), n_grid=len(Y_GRID), n_rand=4, n_p=len(P_GRID)))
+        # ... and the families on the special functions, canonical parameters, so that every branch switch along x is hit at 1 ulp
+        for fam, extras in (("sxp", ([0.5], [1.0], [2.0])), ("gam", ([0.5], [1.0], [2.0])), ("normal", ([],)), ("lognormal", ([],))):
+            for extra in extras:
+                out.append(self.make_case(fam, [0.0, 1.0] + extra, rng, "canon-%s-%s" % (fam, extra), n_grid=8, n_rand=2, n_p=4, deriv=1))
         # the inputs of the repaired defects (DESIGN §7 items 4, 12, 13) stay in the corpus as regression witnesses
         out.append({"name": "fixed-wei-cdf-smallx", "ops": [op_f("esl_wei_cdf", [1.0, 0.0, 1.0, 0.7]), op_f("esl_wei_surv", [1.0, 0.0, 1.0, 0.7]),
                                                            op_f("esl_wei_logcdf", [1.0, 0.0, 1.0, 0.7]), op_f("esl_wei_cdf", [1e-30, 0.0, 1.0, 0.7]),
@@ -482,7 +514,7 @@ class C10(Prop):
                         ops.append(op_f("esl_gev_" + w, [x, mu, lam, al]))
                         ops.append(_mixop("mixgev", w, x, q=[0.5, 0.5], mu=[mu, mu], l=[lam, lam], al=[al, al]))
                 out.append({"name": "bound-gev-%r-%r-%r" % (al, lam, mu), "ops": ops})
-        for fam, shp in (("exp", []), ("wei", [0.5]), ("wei", [1.0]), ("wei", [2.0]), ("sxp", [0.5]), ("sxp", [2.0]), ("gam", [0.5]), ("gam", [2.0])):
+        for fam, shp in (("exp", []), ("wei", [0.5]), ("wei", [1.0]), ("wei", [2.0]), ("sxp", [0.5]), ("sxp", [1.0]), ("sxp", [2.0]), ("gam", [0.5]), ("gam", [1.0]), ("gam", [2.0])):
             pre, _, _, _, xn, _ = R.FAMILY[fam]
             for mu, lam in ((0.0, 1.0), (3.0, 2.0), (-4.0, 0.5)):
                 ops = []
@@ -496,6 +528,7 @@ class C10(Prop):
         for mu in (0.0, 3.0):         # "any lambda > 0 is valid... including infinity" (esl_exponential.c): logpdf must not be NaN
             exp_cases += [(op_f("esl_exp_logpdf", [mu - 1.0, mu, INF]), -INF), (op_f("esl_exp_logpdf", [mu, mu, INF]), INF),
                           (op_f("esl_exp_logpdf", [mu + 1.0, mu, INF]), -INF),
+                          (op_f("esl_exp_logpdf", [nextafter(mu, -1), mu, INF]), -INF), (op_f("esl_exp_logpdf", [nextafter(mu, 1), mu, INF]), -INF),
                           (op_f("esl_exp_invcdf", [0.0, mu, 2.0]), mu), (op_f("esl_wei_invcdf", [0.0, mu, 2.0, 0.7]), mu)]
         for w, v in (("cdf", math.exp(-1.0)), ("logcdf", -1.0), ("pdf", math.exp(-1.0)), ("logpdf", -1.0),
                      ("surv", 1 - math.exp(-1.0)), ("logsurv", math.log(1 - math.exp(-1.0)))):
@@ -575,6 +608,10 @@ class C10(Prop):
                 continue
             kind, kv, a = parse_op(op)
             res = parse_out(line)
+            if res is None and kind == "gamsample" and line == "hang":
+                # every forced variate was absorbed (mu + t/lambda == mu): the C loop draws again, the stream is exhausted
+                if all(a[0] + unhex(v) / a[1] == a[0] for v in kv["t"].split(",")):
+                    continue
             if res is None:
                 return Failure("monitor", "operation %r answered %r" % (op, line))
             if kind == "gamsample":
@@ -859,7 +896,42 @@ class C10(Prop):
                                 "esl_stats_Psi / Trigamma / DMean / ChiSquaredTest (status + out-parameter functions, used by the fitting code, C11)"],
                 "literals_from_source_text": getattr(self, "tinfo", {}).get("literals", []),
                 "hand_model_ops_equal_within_tolerance_but_not_bitwise": getattr(self, "hdrift", [0])[0],
-                "input_distribution": {"ops_by_function": st["ops"], "returned_values": st["values"]}}
+                "input_distribution": {"ops_by_function": st["ops"], "returned_values": st["values"]},
+                "l0_branch_coverage": self.branch_coverage()}
+
+    # `return` statements that no non-NaN argument reaches (listed so that "uncovered" means something)
+    UNREACHABLE = {fn: {4: "x == mu and tau neither < 1, > 1 nor == 1: tau is NaN"}
+                   for fn in ("esl_gam_pdf", "esl_gam_logpdf", "esl_wei_pdf", "esl_wei_logpdf")}
+
+    def branch_coverage(self):
+        """per translated scalar function: how many closed-form (mpmath) comparisons landed in each branch (= `return` statement of
+           the translated decision tree, numbered and described by the translator from the current source), which branches were
+           never reached, and for every pair of branches adjacent along the first argument whether the switch was witnessed between
+           two ADJACENT binary64 values (threshold +-1 ulp)"""
+        info = getattr(self, "tinfo", {})
+        cov, tr = getattr(self, "leafcov", {}), getattr(self, "leaftrans", {})
+        per, uncovered, unpinned = {}, [], []
+        for fn, n in sorted(info.get("leaves", {}).items()):
+            if R.split_fn(fn)[0] is None:
+                continue
+            paths = info.get("leaf_paths", {}).get(fn, [])
+            hits = cov.get(fn, {})
+            per[fn] = {"%d: %s" % (i, paths[i] if i < len(paths) else "?"): hits.get(i, 0) for i in range(n)}
+            for i in range(n):
+                if not hits.get(i) and i not in self.UNREACHABLE.get(fn, {}):
+                    uncovered.append("%s branch %d (%s)" % (fn, i, paths[i] if i < len(paths) else "?"))
+            for pair, (seen, pinned, near) in sorted(tr.get(fn, {}).items()):
+                if near and not pinned:
+                    unpinned.append("%s %s (seen %d times within 4 ulp, never between adjacent doubles)" % (fn, pair, near))
+            if fn.endswith("_Sample"):      # judged through the `sampleof` operations (forced variate), one branch
+                k0 = next(iter(per[fn]))
+                per[fn][k0] = getattr(self, "mstats", {"ops": {}})["ops"].get("sampleof:" + fn, 0)
+                uncovered = [u for u in uncovered if not u.startswith(fn + " ")] if per[fn][k0] else uncovered
+        return {"comparisons_per_branch": per, "branches_total": sum(len(v) for v in per.values()),
+                "branches_never_reached": uncovered, "unreachable_without_nan": {k: v for k, v in self.UNREACHABLE.items()},
+                "switches_along_first_argument": {fn: {k: {"consecutive_sample_points": v[0], "within_4_ulp": v[2], "between_adjacent_doubles": v[1]} for k, v in sorted(d.items())}
+                                                  for fn, d in sorted(tr.items())},
+                "switches_never_witnessed_at_1ulp": unpinned}
 
 
 SPEC = C10()
